@@ -41,6 +41,8 @@ type Server struct {
 	disablePanicRecovery bool
 	shutdownCancel       context.CancelFunc
 	shutdownCtx          context.Context
+	// acceptDone is closed when Run's accept loop has ended
+	acceptDone chan struct{}
 }
 
 // NewServer creates a new ldap server
@@ -166,15 +168,19 @@ func (s *Server) Run(addr string, opt ...Option) error {
 		s.mu.Unlock()
 		return fmt.Errorf("%s: unable to listen to addr %s: %w", op, addr, err)
 	}
-	s.listenerReady = true
-	s.mu.Unlock()
 	if opts.withTLSConfig != nil {
 		s.logger.Debug("setting up TLS listener", "op", op)
 		s.tlsConfig = opts.withTLSConfig
-		s.mu.Lock()
 		s.listener = tls.NewListener(s.listener, s.tlsConfig)
-		s.mu.Unlock()
 	}
+	s.listenerReady = true
+	// Stop waits for the accept loop below to end before it waits for the
+	// connections: a connection accepted while the server is stopping is
+	// then always registered with connWg before Stop calls connWg.Wait.
+	acceptDone := make(chan struct{})
+	s.acceptDone = acceptDone
+	s.mu.Unlock()
+	defer close(acceptDone)
 	s.logger.Info("listening", "op", op, "addr", s.listener.Addr())
 
 	connID := 0
@@ -306,6 +312,12 @@ func (s *Server) Stop() error {
 	if s.shutdownCancel != nil {
 		s.logger.Debug("shutdown cancel func")
 		s.shutdownCancel()
+	}
+	if s.acceptDone != nil {
+		// Run stops accepting once the listener is closed; only then is the
+		// set of connections to wait for complete
+		s.logger.Debug("waiting on the accept loop to end")
+		<-s.acceptDone
 	}
 	s.logger.Debug("waiting on connections to close")
 	s.connWg.Wait()
